@@ -101,8 +101,13 @@ AR_TAIL = '</ELEMENTS></AR-PACKAGE></AR-PACKAGES></AUTOSAR>'
 
 
 def gen_compu(rng):
-    """returns (xml text of the COMPU-METHOD, groups for cmd 1503, label table)"""
+    """returns (xml text of the COMPU-METHOD, groups for cmd 1503, label table, inside)
+    inside = the element is a COMPU-METHOD "according to the format's own rules" (the property's quantifier): every linear scale has
+    two numerator values and one NON-ZERO denominator value, all of them numbers, and a scale with LOWER-LIMIT has its UPPER-LIMIT.
+    What a reader does with anything else (zero denominator, missing coefficients, text instead of numbers) is outside the property:
+    such elements are still generated and run (the machinery must survive them) but neither judged nor tied."""
     labels = {"": 0}
+    inside = True
 
     def lab_id(s):
         if s is None:
@@ -129,6 +134,8 @@ def gen_compu(rng):
             ul = (rng.choice(["%d", "%d.0", "%d", "0x%x"]) % (k if same else k + 1)) if rng.random() < 0.93 else None
             if rng.random() < 0.05:
                 ll = None
+            if ll is not None and ul is None:
+                inside = False
         if kind == "text":
             how = rng.choice(["vt", "vt", "vt", "sl", "desc", "sl+vt", "none", "emptyvt"])
             txt = rng.choice(["Off", "On", "Not available", "Error", "x y", "Störung"])
@@ -161,12 +168,15 @@ def gen_compu(rng):
                 d = rng.choice([1, 1, 2, 4, 5, 8, 10, 16, 25, 100, 1000, 0, 3, 7])
                 f, o = netdesc.rand_decimal(rng, 4, neg=True), netdesc.rand_decimal(rng, 4, neg=True)
                 st = rng.choice(netdesc.NUM_STYLES)
-                nn = rng.choice([2, 2, 2, 2, 1, 3, 0])
+                nn = rng.choice([2] * 10 + [1, 3, 0])
                 vals = [o * d if d else o, f * d if d else f, D(0)][:nn]
                 nums = [netdesc.render_number(v, st) for v in vals]
-                if rng.random() < 0.05 and nums:
+                if rng.random() < 0.02 and nums:
                     nums[-1] = "x1"
-                nd = rng.choice([1, 1, 1, 1, 2, 0])
+                    inside = False
+                nd = rng.choice([1] * 10 + [2, 0])
+                if nn != 2 or nd != 1 or d == 0:
+                    inside = False
                 dens = [netdesc.render_number(D(d), rng.choice(["plain", "plain", "tz", "expE"]))] + ["1"] * (nd - 1) if nd else []
                 sc.append("<COMPU-RATIONAL-COEFFS><COMPU-NUMERATOR>%s</COMPU-NUMERATOR><COMPU-DENOMINATOR>%s</COMPU-DENOMINATOR></COMPU-RATIONAL-COEFFS>"
                           % ("".join("<V>%s</V>" % v for v in nums), "".join("<V>%s</V>" % v for v in dens)))
@@ -182,7 +192,7 @@ def gen_compu(rng):
             groups.append(chars(ul))
         groups += [chars(v) for v in nums] + [chars(v) for v in dens]
     parts.append("</COMPU-SCALES></COMPU-INTERNAL-TO-PHYS></COMPU-METHOD>")
-    return "".join(parts), groups, labels
+    return "".join(parts), groups, labels, inside
 
 
 def impl_compu(cm, xml, labels):
@@ -305,8 +315,8 @@ def run(chk, ok, cm):
     n_cm = 6000 if thorough else 1200
     cm_cases = []
     for _ in range(n_cm):
-        xml, groups, labels = gen_compu(rng)
-        cm_cases.append((len(lines), xml, impl_compu(cm, xml, labels)))
+        xml, groups, labels, inside = gen_compu(rng)
+        cm_cases.append((len(lines), xml, impl_compu(cm, xml, labels), inside))
         add(1503, [[sum(1 for g in [0] for _ in range(xml.count("<COMPU-SCALE>")))]] + groups, None, dict(compu=xml))
     # ---- base types ----
     encs = ["NONE", "2C", "IEEE754", "SINGLE", "DOUBLE", "BOOLEAN", "1C", "UTF-8", "None", "none", "SM"]
@@ -382,8 +392,12 @@ def run(chk, ok, cm):
             bad += 1
             chk.tie_break("readers-decode", inf, o, exp)
     # COMPU-METHOD: compare by value (exact rationals)
-    for idx, xml, imp in cm_cases:
+    for idx, xml, imp, inside in cm_cases:
         o = out[idx]
+        if not inside:
+            # outside the quantifier (see gen_compu): run on both sides, not compared
+            chk.count("tie:compu-outside-quantifier-not-compared")
+            continue
         chk.count("tie:compu-" + ("error" if imp[0] == "err" else "ok"))
         if imp[0] == "err":
             if o != [[0]]:
